@@ -1,4 +1,5 @@
 import PmtilesModel.Proofs.Extract
+import PmtilesModel.Proofs.Once
 /-!
 # C19 — Extract transfers at most (1+overfetch) × needed tile bytes, each byte once
 
@@ -62,6 +63,44 @@ theorem span_inside (cds : List (Nat × Nat)) (lim : Nat) :
         (fun r hr' => hr r (by simp only [expandAux, List.mem_cons]; right; simpa [expandAux] using hr'))
       simp only [need] at this ⊢
       omega
+
+/-- **each byte once, for source-monotone range lists**: when the wanted ranges (in output order)
+    lie one after the other in the source too — no back-reference: every range starts at or after the
+    end of all earlier ones, as in a clustered source whose extract keeps first occurrences in place —
+    the requests of every plan `MergeRanges` may produce are pairwise disjoint: no source byte is
+    transferred twice.  (`not_once` below shows the hypothesis cannot be dropped.) -/
+theorem once_partial (ranges : List Rng) (budget : Nat) (plans : List Plan)
+    (h : mergeOK ranges budget plans = true)
+    (hm : ranges.Pairwise (fun a b => a.src + a.len ≤ b.src)) :
+    ∀ p ∈ plans, ∀ q ∈ plans, p ≠ q →
+      ∀ i, ¬ ((p.rng.src ≤ i ∧ i < p.rng.src + p.rng.len) ∧ (q.rng.src ≤ i ∧ i < q.rng.src + q.rng.len)) := by
+  obtain ⟨h1, h2, _⟩ := mergeOK_parts h
+  have hl := mergeOK_last h
+  have hperm := perm_sortByDst plans
+  have hpw : (sortByDst plans).Pairwise (fun p q => p.rng.src + p.rng.len ≤ q.rng.src) := by
+    apply groups_disjoint
+    · intro p hp
+      have := hperm.mem_iff.mp hp
+      exact ⟨h2 p this, hl p this⟩
+    · rw [h1]; exact hm
+  -- from the ordered statement to all pairs
+  have hall : ∀ p ∈ sortByDst plans, ∀ q ∈ sortByDst plans,
+      p = q ∨ p.rng.src + p.rng.len ≤ q.rng.src ∨ q.rng.src + q.rng.len ≤ p.rng.src := by
+    apply List.Pairwise.forall_of_forall_of_flip (R := fun p q : Plan =>
+        p = q ∨ p.rng.src + p.rng.len ≤ q.rng.src ∨ q.rng.src + q.rng.len ≤ p.rng.src)
+    · intro a _; exact Or.inl rfl
+    · exact hpw.imp (fun hr => Or.inr (Or.inl hr))
+    · exact hpw.imp (fun hr => Or.inr (Or.inr hr))
+  intro p hp q hq hne i hi
+  rcases hall p (hperm.mem_iff.mpr hp) q (hperm.mem_iff.mpr hq) with e | e | e
+  · exact hne e
+  · omega
+  · omega
+
+example : mergeOK [⟨0, 0, 10⟩, ⟨20, 10, 10⟩, ⟨1000, 20, 5⟩] 10 [⟨⟨0, 0, 30⟩, [(10, 10), (10, 0)]⟩, ⟨⟨1000, 20, 5⟩, [(5, 0)]⟩] = true ∧
+    ([⟨0, 0, 10⟩, ⟨20, 10, 10⟩, ⟨1000, 20, 5⟩] : List Rng).Pairwise (fun a b => a.src + a.len ≤ b.src) := by
+  refine ⟨by decide, ?_⟩
+  simp
 
 /-- "no source byte is requested twice" does NOT hold in general: with a back-reference
     (a range whose source offset lies before an earlier range's) a merged span covers bytes that
